@@ -1194,6 +1194,9 @@ enum Stage<'e> {
     FilterMap(&'e syn::ExprClosure),
 }
 enum Term<'e> {
+    /// `all(c)` / `any(c)` whose closure itself iterates (no closure contract can carry a nested quantifier to vstd's spec of all / any)
+    All(&'e syn::ExprClosure),
+    Any(&'e syn::ExprClosure),
     Collect(Option<String>),
     SumF32,
     Fold(&'e Expr, &'e syn::ExprClosure),
@@ -1225,6 +1228,10 @@ fn parse_chain<'e>(src: &str, m: &'e syn::ExprMethodCall) -> Option<(Source, Vec
             _ => return None,
         },
         "max" if m.args.is_empty() => Term::Max,
+        "all" | "any" if m.args.len() == 1 => match &m.args[0] {
+            Expr::Closure(c) if c.inputs.len() == 1 && txt(src, &*c.body).contains(".iter()") => if name == "all" { Term::All(c) } else { Term::Any(c) },
+            _ => return None,
+        },
         _ => return None,
     };
     let mut stages = vec![];
@@ -1295,7 +1302,7 @@ impl<'a> R15<'a> {
             _ => false,
         };
         let needs = stages.iter().any(|s| matches!(s, Stage::Filter(_) | Stage::FilterMap(_)))
-            || matches!(term, Term::Fold(..) | Term::Max)
+            || matches!(term, Term::Fold(..) | Term::Max | Term::All(..) | Term::Any(..))
             || matches!(source, Source::Range(..) | Source::MapIter(..))
             || to_set; // vstd has no specification of `FromIterator for HashSet`
         if !needs {
@@ -1366,6 +1373,15 @@ impl<'a> R15<'a> {
                 let acc = txt(src, &c.inputs[0]);
                 let b = bind_param(src, &c.inputs[1], &cur);
                 format!("{{ let mut {acc} = {init}; {head} {{ {body}{b} {acc} = {fb}; {closers}}} {acc} }}", acc = acc, init = txt(src, *init), head = head, body = body, b = b, fb = txt(src, &*c.body), closers = closers)
+            }
+            Term::All(c) => {
+                let b = bind_param(src, &c.inputs[0], &cur); // all / any hand the item itself to the closure
+                // short-circuit as in core: the closure is not evaluated any more once the answer is known
+                format!("{{ let mut all_ = true; {head} {{ if all_ {{ {body}let ok_ = {{ {b} {cb} }}; if !ok_ {{ all_ = false; }} {closers}}} }} all_ }}", head = head, body = body, b = b, cb = txt(src, &*c.body), closers = closers)
+            }
+            Term::Any(c) => {
+                let b = bind_param(src, &c.inputs[0], &cur);
+                format!("{{ let mut any_ = false; {head} {{ if !any_ {{ {body}let ok_ = {{ {b} {cb} }}; if ok_ {{ any_ = true; }} {closers}}} }} any_ }}", head = head, body = body, b = b, cb = txt(src, &*c.body), closers = closers)
             }
             Term::Max => format!(
                 "{{ let mut max_: Option<_> = None; {head} {{ {body}max_ = match max_ {{ None => Some({cur}), Some(m_) => if {cur} >= m_ {{ Some({cur}) }} else {{ Some(m_) }} }}; {closers}}} max_ }}",
